@@ -40,6 +40,13 @@ def dir_cfgs():
     c.append(dir_cfg(1, 3, 56, "thorough"))
     return c
 
+import importlib.util as _ilu, os as _os
+def _e2undo(prop):
+    p = _os.path.join(_os.path.dirname(_os.path.abspath(__file__)), "..", "E2UNDO", "spec.py")
+    s = _ilu.spec_from_file_location("spec_E2UNDO_for_" + prop, p)
+    m = _ilu.module_from_spec(s)
+    s.loader.exec_module(m)
+    return m.ENTRIES_FOR(prop)
 HARNESSES = [
     dict(name="dirblock", src="dirblock.c",
          funcs=["ext2fs_process_dir_block", "ext2fs_get_rec_len", "ext2fs_validate_entry"],
@@ -85,6 +92,8 @@ HARNESSES.append(
     dict(name="dxlimit", src="dxlimit.c", funcs=["__get_dx_countlimit", "ext2fs_get_dx_countlimit"], checks="memsafe",
          unwind=3, unwindset=["main.0:2", "main.1:65", "main.2:2"], backends=["default"],
          bound="64-byte directory block, every byte symbolic"))
+HARNESSES += _e2undo("C06")   # the real main() of misc/e2undo.c (sources in harness/E2UNDO)
+
 MANIFEST = {
     "text": "Bounded-exhaustive parser safety: for each harnessed parser (directory block iteration incl. deleted-entry scan and inline "
             "regions, journal descriptor-tag counting and revoke-record scan, extent header gate, htree count/limit locator) every byte of "
